@@ -203,6 +203,9 @@ class VerificationTrailer:
         view = view[8:]
         commands = []
         while True:
+            if not view:
+                raise ValueError(f"Failed to unpack {cls.__name__} as there is no command marked as the end")
+
             cmd = Command.unpack(view)
             commands.append(cmd)
             view = view[4 + len(cmd.value) :]
